@@ -17,7 +17,7 @@ double nondet_double(void);
 binson_type nondet_type(void);
 
 size_t vc_k, vc_j, vc_memcmp_idx, vc_cstr_max;
-int64_t vc_wit_i64; int vc_wit_flag;      /* copies of the inputs for the native replay */
+int64_t vc_wit_i64; int vc_wit_flag; size_t vc_wit_cap, vc_wit_used, vc_wit_len; int vc_wit_err;      /* copies of the inputs for the native replay */
 int vc_memcmp_result; size_t vc_memcmp_n; const void *vc_memcmp_a, *vc_memcmp_b; size_t vc_strlen_result;
 
 #define H_END()    __CPROVER_assert(0, "vacuity control: harness end reachable under the precondition")
@@ -57,6 +57,8 @@ void h__write(void)
 {
     binson_writer *w = mk_writer();
     bbuf *d = mk_data();
+    vc_wit_cap = w->buffer_size; vc_wit_used = w->buffer_used; vc_wit_err = w->error_flags; vc_wit_len = d->bsize;
+    vc_wit_flag = (w->buffer != NULL);
     bool r = _write(w, d);
     /* vacuity controls restricted to small pieces: CBMC runs out of memory building the
      * witness trace of a 2^32-byte memmove, and a small witness shows reachability just as well */
